@@ -2,5 +2,8 @@
 package props
 
 import (
+	_ "verifharness/props/c02"
 	_ "verifharness/props/c03"
+	_ "verifharness/props/c12"
+	_ "verifharness/props/c17"
 )
